@@ -77,6 +77,14 @@ pub fn curated() -> Vec<Scen> {
             vec![ff(3, A), link(3, A, 2, A), link(2, X, 1, X), link(2, A, 1, A), notar(1, A), nf(1, X), link(1, X, 0, 0)],
         ),
         s(
+            "abandoned-waiter-then-ready-parent-carried-over-a-skipped-window",
+            vec![Op::WaitAbandoned(4), notar(3, A), skip(4), skip(5), skip(6), skip(7), Op::Wait(8)],
+        ),
+        s(
+            "abandoned-waiter-finalization-driven",
+            vec![Op::WaitAbandoned(4), ff(2, A), link(2, A, 1, A), skip(3), notar(1, A), skip(4), skip(5), skip(6), skip(7)],
+        ),
+        s(
             "two-windows-skip-chain",
             vec![skip(1), skip(2), skip(3), skip(4), skip(5), skip(6), skip(7), notar(2, A), Op::Wait(8), Op::Wait(4)],
         ),
